@@ -22,6 +22,8 @@ import QV.Proofs.WriterBridge
 import QV.Proofs.WriterRefine
 import QV.Proofs.WriterHeader
 import QV.Proofs.WriterShapeRun
+import QV.Proofs.WriterContentDecode
+import QV.Proofs.WriterMsgRefine
 
 namespace QV.C12
 open QV QV.Writer QV.ServerSafety
@@ -41,18 +43,21 @@ open QV QV.Writer QV.ServerSafety
 
   Proved below for all operation sequences: (a) the invariant, (b) the size limit, (c) failed
   operations change nothing, (e) no spurious truncation, (f) the extended RCODE, no panic and
-  `finish` succeeds under the hint contract, and (d) the decoding half **in `Disabled`
-  compression mode** (`C12_disabled_refinement`: the independent decoder `specDecodeMsg` reads the
-  finished octets as exactly the questions, records, OPT and TSIG record of the calls that
-  succeeded). For `Standard` / `CasePreserving` mode, where names may be compressed, (d) is proved in
-  two parts: the structure of the finished message for all sequences of calls
-  (`C12_finished_message_decodes_all_modes`: it decodes completely, with exactly the counted
-  questions and records, OPT and TSIG last) and the content record by record
-  (`C12_record_round_trip_all_modes`: owner up to ASCII case / exactly, TYPE, CLASS, TTL, RDLENGTH;
-  C13 has the round trip of every single written name). Not proved: the read-back of names inside
-  RDATA within a whole message and the assembly into one statement about the abstract message —
-  that remains with the oracle (model column of `waudit`, 100 % of generated sessions). The header
-  half of (d) is proved for every mode (`C12_header_all_sequences`). -/
+  `finish` succeeds under the hint contract, and (d) the decoding half **in every compression
+  mode**: `C12_refinement_all_modes` (the specification's decoder `specDecodeMsg` reads the finished
+  octets as the header octets of the writer and exactly the questions, records, OPT and TSIG record
+  of the calls that succeeded, in order; names — QNAME, owners, names inside RDATA, decompressed —
+  equal to the names given up to ASCII case), `C12_refinement_without_standard_mode` (sessions that
+  never use `Standard` mode: the decoded message *equals* the abstract message; for `Disabled` mode
+  alone also `C12_disabled_refinement`, proved from the octets), `C12_header_all_sequences` (what
+  the header octets are). What separates these theorems from `C12_full` as a single statement: the
+  executable `checkSession` walks the reported statuses (justifying every failure), compares each
+  item with the mode in effect when it was written (that comparison is `C12_refinement_item_modes`)
+  and runs the pointer audit (that is C13, `C13_holds`), and (d) is stated for finished messages of at most 65535 octets, i.e. for sessions
+  whose limits are at most 65535 (`C12_refinement_all_modes_dns_limits`; RDLENGTH is a 16-bit
+  field, the writer itself accepts larger buffers). The driver evaluates `checkSession`
+  itself on 100 % of the generated sessions (model column and, on the implementation's octets, spec
+  column of `waudit`). -/
 
 def C12_full : Prop :=
   ∀ (buf : Bytes) (limit : Nat) (mode : CMode) (s : State) (ops : List Op) (mac : Option (List UInt8)),
@@ -236,9 +241,12 @@ theorem C12_component_table_is_rfc_layout (cls ty : Nat) :
     componentTypes cls ty = some ((Spec.Message.layoutOf ty cls).map layToComp) :=
   componentTypes_layout cls ty
 
-/-! ## (d) in every compression mode: structure, and the round trip of each record
+/-! ## (d) in every compression mode
 
-  For `Standard` and `CasePreserving` mode the refinement is proved in two parts.
+  The refinement for `Standard` and `CasePreserving` mode is `C12_refinement_all_modes` (the single
+  statement, at the end of this file) with its corollary `C12_refinement_without_standard_mode`
+  (decoded message = abstract message, exactly). The theorems before it state its parts for the
+  independent message decoder of `QV.Spec.MsgDecode` (the oracle of C02):
   * **Structure, for all sequences of calls** (`C12_finished_message_decodes_all_modes`): the
     finished message — if at most 65535 octets, as every DNS message is — decodes completely under
     the independent message decoder of `QV.Spec.MsgDecode`: exactly QDCOUNT questions and
@@ -251,9 +259,11 @@ theorem C12_component_table_is_rfc_layout (cls ty : Nat) :
     appended reads back, on every later message, as the owner given (same labels up to ASCII case;
     octet for octet in `CasePreserving` and `Disabled` mode), TYPE, CLASS, TTL as given, and an
     RDLENGTH that is the number of octets written after it.
-  Not proved for these two modes: that the names *inside RDATA* read back (C13 proves each of them
-  is written validly and `C13_written_name_round_trip` that each reads back on its own), and the
-  assembly of the two parts into one statement about the abstract message. -/
+  * **Content, all records of a session** (`C12_records_are_the_calls_all_modes`, below): the decoded
+    questions and records are, section by section and in order, those of the calls that succeeded.
+  * **RDATA** (`C12_rdata_round_trip_all_modes`, below): the RDATA of a record reads back field by
+    field, the names inside it decompressed to the names given.
+  * **The whole message, RFC-layout decoder** (`C12_refinement_all_modes`, below). -/
 
 theorem C12_finished_message_decodes_all_modes (macFn : Tsig → List UInt8 → List UInt8) (hmac : MacLenOK macFn)
     (buf : Bytes) (limit : Nat) (s0 : State) (hnew : Writer.new buf limit = .ok s0) (mode : CMode)
@@ -293,5 +303,210 @@ theorem C12_question_round_trip_all_modes (qn : WName) (qt qc : Nat) (s s' : Sta
       w.map lowerU8 = qn.wire.map lowerU8 ∧ (s.mode ≠ .standard → w = qn.wire) ∧
       be16 msg (s.cursor + k) = qt ∧ be16 msg (s.cursor + k + 2) = qc :=
   addQuestionBody_round_trip qn qt qc s s' hw hwf hqt hqc h msg hmsg
+
+
+/-! ### every decoded question and record is the one given, in order (every mode)
+
+  For every session from a fresh writer, in any initial mode, with any mode changes: the finished
+  message (if at most 65535 octets) decodes, and the decoded questions / answer / authority /
+  additional records are — one for one and in order — the questions and records of the calls that
+  succeeded (`bodyRun`; `clear_rrs` removes the records, a failed call adds nothing), followed in
+  the additional section by the OPT record (payload size as CLASS, extended RCODE/version as TTL)
+  and the TSIG record (key name, ANY, TTL 0). "Is the one given" (`RMatch`, `QMatch`): the decoded
+  name, decompressed by the independent decoder, equals the name given up to ASCII case — octet
+  for octet if the call was made in `CasePreserving` or `Disabled` mode (the mode `it.m` of every
+  item is the initial mode or one set by a `set_compression_mode` call of the session) —, TYPE, CLASS, TTL are
+  the values given, and the RDATA is the RDATA given, octet for octet, for every type whose RDATA
+  holds no compressible name (`Rdata::components` lists none: everything but NS, MD, MF, CNAME,
+  SOA, MB, MG, MR, PTR, MINFO, MX). Underneath (`RdAt`, `QV.Proofs.WriterRdPos`): for every record
+  the buffer holds the RDATA given part by part as `write_components` splits it — fixed-length
+  parts, uncompressible names and the rest verbatim, each compressible name as a name the
+  independent decoder reads there and that is the name given. -/
+theorem C12_records_are_the_calls_all_modes (macFn : Tsig → List UInt8 → List UInt8) (hmac : MacLenOK macFn)
+    (buf : Bytes) (limit : Nat) (s0 : State) (hnew : Writer.new buf limit = .ok s0) (mode : CMode)
+    (ops : List Op) (hr : Respects { w := { s0 with mode := mode } } ops) :
+    let out := run { w := { s0 with mode := mode } } ops
+    let given := bodyRun {} ops out.2
+    ∃ m mac, finish out.1.w macFn = .ok (m, mac) ∧ (m.size ≤ 65535 →
+      ∃ (d : Spec.DMsg) (qs : List QItC) (ian ins iar : List RItC), Spec.specDecodeMsg m = some d ∧
+        qs.map (·.q) = given.qs ∧ ian.map (·.r) = given.an ∧ ins.map (·.r) = given.ns ∧
+        iar.map (·.r) = given.ar ++ optRecs' out.1.w.edns ++ tsigRecs out.1.w.tsig mac ∧
+        All2 QMatch qs d.questions ∧ All2 RMatch ian d.an ∧ All2 RMatch ins d.ns ∧ All2 RMatch iar d.ar ∧
+        (∀ it ∈ qs, it.m = mode ∨ Op.setMode it.m ∈ ops) ∧
+        ∀ it ∈ ian ++ ins ++ iar, it.m = mode ∨ Op.setMode it.m ∈ ops) := by
+  intro out given
+  have hI0 : I { s0 with mode := mode } := (safe_setMode mode s0 (new_i buf limit s0 hnew)).2
+  have hL0 : CLay (fun m => m = mode ∨ Op.setMode m ∈ ops) { s0 with mode := mode } {} {} :=
+    clay_new buf limit s0 hnew mode (Or.inl rfl)
+  have hI := (run_I { w := { s0 with mode := mode } } ops hI0 hr).2
+  have hL := clay_run { w := { s0 with mode := mode } } ops {} {} hI0 hL0 hr (fun m hm => Or.inr hm)
+  obtain ⟨m, mac, hf⟩ := finish_ok macFn hmac out.1.w hI
+  exact ⟨m, mac, hf, fun hsz => finish_decodes_content macFn out.1.w given _ hI hL m mac hf hsz⟩
+
+/-! ### the RDATA of a record reads back, names inside it decompressed (every mode)
+
+  After a successful `add_rr` (message of at most 65535 octets so far): the record starts at the old
+  cursor with an owner of `k` octets, RDLENGTH holds the number `len` of octets after it, and the
+  specification's decoder (`QV.Spec.Message.decodeRdata`: expand the RDATA along the RFC layout of
+  the type, decompressing the names RFC 3597 §4 allows to be compressed) reads exactly the fields
+  of the RDATA given (`givenRdata`, the specification's own reading of the caller's octets):
+  `FieldMatch` — octet fields equal, names equal up to ASCII case, octet for octet unless the mode
+  is `Standard`. The whole-message statements carry this for every record (`RdAt` inside the
+  layout invariant `CLay`). -/
+theorem C12_rdata_round_trip_all_modes (hint : Hint) (owner : WName) (ty cls ttl : Nat) (rd : List UInt8)
+    (s s' : State) (hw : WInv s) (hl : PtrLogOK s) (hwf : owner.WF) (hh : Writer.HintOK s hint owner)
+    (h : addRr hint owner ty cls ttl rd s = (.ok (), s')) (hle : s'.cursor ≤ 65535) (item : Nat) :
+    ∃ k len gf df ns, s.cursor + k + 10 + len = s'.cursor ∧
+      (∃ w n, Spec.specDecodeName (s'.octets.extract 0 s'.cursor) s.cursor = some (w, n, k)) ∧
+      be16 s'.octets (s.cursor + k + 8) = len ∧
+      Spec.Message.givenRdata ty cls rd = some gf ∧
+      Spec.Message.decodeRdata (s'.octets.extract 0 s'.cursor) item ty cls (s.cursor + k + 10) len = some (df, ns) ∧
+      All2 (FieldMatch (s.mode ≠ .standard)) gf df :=
+  addRr_rdata_round_trip hint owner ty cls ttl rd s s' hw hl hwf hh h hle item
+
+
+/-! ### (d) in every compression mode: the single statement
+
+  `C12_refinement_all_modes`: for every buffer, limit, initial mode and every sequence of public calls
+  (arguments of the Rust types: 16-bit types and classes, …; hint contract respected), with any
+  mode changes, templates, `clear_rrs`, EDNS and TSIG: `finish` succeeds and its message (if at most
+  65535 octets), read by the specification's RFC 1035 decoder `QV.Spec.Message.specDecodeMsg`
+  (pointers followed, names decompressed, RDATA expanded along the RFC layouts), is: the header
+  octets of the writer (`C12_header_all_sequences` says what they are) and, section by section and
+  in order, exactly the questions and records of the calls that succeeded (a failed call adds
+  nothing; `clear_rrs` removes the records), followed in the additional section by the OPT and TSIG
+  records — where `QuestionIs ex` / `RecordIs ex` say: names (QNAME, owner, and every name inside
+  RDATA, decompressed) equal to the names given up to ASCII case, and octet for octet if `ex`; TYPE,
+  CLASS, TTL and every other RDATA octet as given. `ex` may be taken `True` whenever neither the
+  initial mode nor any mode set during the session is `Standard`, and `False` always.
+
+  `C12_refinement_item_modes`: the same with every item compared in the mode in effect when it was
+  written (sessions that switch modes).
+
+  `C12_refinement_all_modes_dns_limits`: no premise on the size when all limits are at most 65535.
+
+  `C12_refinement_without_standard_mode`: with `ex = True`, the decoded message *equals* the abstract
+  message of the successful calls — the statement of `C12_disabled_refinement`, now for
+  `CasePreserving` (and any mix of `CasePreserving` and `Disabled`). -/
+theorem C12_refinement_all_modes (macFn : Tsig → List UInt8 → List UInt8) (hmac : MacLenOK macFn)
+    (buf : Bytes) (limit : Nat) (s0 : State) (hnew : Writer.new buf limit = .ok s0) (mode : CMode)
+    (ops : List Op) (ht : ∀ op ∈ ops, op.Typed) (hr : Respects { w := { s0 with mode := mode } } ops)
+    (ex : Prop) (hex : ex → mode ≠ .standard ∧ ∀ m, Op.setMode m ∈ ops → m ≠ .standard) :
+    ∃ m mac, finish (run { w := { s0 with mode := mode } } ops).1.w macFn = .ok (m, mac) ∧ (m.size ≤ 65535 →
+      ∃ d : Spec.Message.Decoded, Spec.Message.specDecodeMsg m = some d ∧
+        d.msg.header = specHeader (run { w := { s0 with mode := mode } } ops).1.w.octets ∧
+        All2 (QuestionIs ex) (bodyRun {} ops (run { w := { s0 with mode := mode } } ops).2).qs d.msg.questions ∧
+        All2 (RecordIs ex) (bodyRun {} ops (run { w := { s0 with mode := mode } } ops).2).an d.msg.answers ∧
+        All2 (RecordIs ex) (bodyRun {} ops (run { w := { s0 with mode := mode } } ops).2).ns d.msg.authorities ∧
+        All2 (RecordIs ex) ((bodyRun {} ops (run { w := { s0 with mode := mode } } ops).2).ar ++
+          optRecs' (run { w := { s0 with mode := mode } } ops).1.w.edns ++
+          tsigRecs (run { w := { s0 with mode := mode } } ops).1.w.tsig mac) d.msg.additionals) :=
+  refines_all_modes macFn hmac buf limit s0 hnew mode ops ht hr ex hex
+
+theorem C12_refinement_without_standard_mode (macFn : Tsig → List UInt8 → List UInt8) (hmac : MacLenOK macFn)
+    (buf : Bytes) (limit : Nat) (s0 : State) (hnew : Writer.new buf limit = .ok s0) (mode : CMode)
+    (ops : List Op) (ht : ∀ op ∈ ops, op.Typed) (hr : Respects { w := { s0 with mode := mode } } ops)
+    (hm0 : mode ≠ .standard) (hms : ∀ m, Op.setMode m ∈ ops → m ≠ .standard) :
+    ∃ m mac, finish (run { w := { s0 with mode := mode } } ops).1.w macFn = .ok (m, mac) ∧ (m.size ≤ 65535 →
+      ∃ d : Spec.Message.Decoded, Spec.Message.specDecodeMsg m = some d ∧
+        d.msg = ⟨specHeader (run { w := { s0 with mode := mode } } ops).1.w.octets,
+          (bodyRun {} ops (run { w := { s0 with mode := mode } } ops).2).qs.map specQ,
+          (bodyRun {} ops (run { w := { s0 with mode := mode } } ops).2).an.map specR,
+          (bodyRun {} ops (run { w := { s0 with mode := mode } } ops).2).ns.map specR,
+          ((bodyRun {} ops (run { w := { s0 with mode := mode } } ops).2).ar ++
+            optRecs (run { w := { s0 with mode := mode } } ops).1.w.edns ++
+            tsigRecs (run { w := { s0 with mode := mode } } ops).1.w.tsig mac).map specR⟩) :=
+  refines_exact macFn hmac buf limit s0 hnew mode ops ht hr hm0 hms
+
+/-- **item by item**: every question and record compared in the compression mode in effect when it
+    was written — octet for octet unless that mode was `Standard`, up to ASCII case if it was; the
+    OPT and TSIG records in the mode in effect at `finish`. This is the comparison the executable
+    specification makes (`checkSegment`, `itemModes`), also for sessions that switch between
+    `Standard` and the other modes. `mrun`: the mode of the writer when each successful call was
+    made; by `C12_modes_follow_the_calls` it is a function of the initial mode, the calls and their
+    results (`modesRun`: only `set_compression_mode` changes the mode). -/
+theorem C12_refinement_item_modes (macFn : Tsig → List UInt8 → List UInt8) (hmac : MacLenOK macFn)
+    (buf : Bytes) (limit : Nat) (s0 : State) (hnew : Writer.new buf limit = .ok s0) (mode : CMode)
+    (ops : List Op) (ht : ∀ op ∈ ops, op.Typed) (hr : Respects { w := { s0 with mode := mode } } ops) :
+    ∃ m mac, finish (run { w := { s0 with mode := mode } } ops).1.w macFn = .ok (m, mac) ∧ (m.size ≤ 65535 →
+      ∃ d : Spec.Message.Decoded, Spec.Message.specDecodeMsg m = some d ∧
+        d.msg.header = specHeader (run { w := { s0 with mode := mode } } ops).1.w.octets ∧
+        All2 (fun (x : CMode × QRec) dq => QuestionIs (x.1 ≠ .standard) x.2 dq)
+          ((mrun { w := { s0 with mode := mode } } {} ops).qs.zip
+            (bodyRun {} ops (run { w := { s0 with mode := mode } } ops).2).qs) d.msg.questions ∧
+        All2 (fun (x : CMode × RRec) dr => RecordIs (x.1 ≠ .standard) x.2 dr)
+          ((mrun { w := { s0 with mode := mode } } {} ops).an.zip
+            (bodyRun {} ops (run { w := { s0 with mode := mode } } ops).2).an) d.msg.answers ∧
+        All2 (fun (x : CMode × RRec) dr => RecordIs (x.1 ≠ .standard) x.2 dr)
+          ((mrun { w := { s0 with mode := mode } } {} ops).ns.zip
+            (bodyRun {} ops (run { w := { s0 with mode := mode } } ops).2).ns) d.msg.authorities ∧
+        All2 (fun (x : CMode × RRec) dr => RecordIs (x.1 ≠ .standard) x.2 dr)
+          (((mrun { w := { s0 with mode := mode } } {} ops).ar ++
+              (optRecs' (run { w := { s0 with mode := mode } } ops).1.w.edns).map
+                (fun _ => (run { w := { s0 with mode := mode } } ops).1.w.mode) ++
+              (tsigRecs (run { w := { s0 with mode := mode } } ops).1.w.tsig mac).map
+                (fun _ => (run { w := { s0 with mode := mode } } ops).1.w.mode)).zip
+            ((bodyRun {} ops (run { w := { s0 with mode := mode } } ops).2).ar ++
+              optRecs' (run { w := { s0 with mode := mode } } ops).1.w.edns ++
+              tsigRecs (run { w := { s0 with mode := mode } } ops).1.w.tsig mac)) d.msg.additionals) :=
+  refines_item_modes macFn hmac buf limit s0 hnew mode ops ht hr
+
+/-- the modes used in `C12_refinement_item_modes` do not depend on the model's state: only
+    `set_compression_mode` changes the writer's mode (`step_mode`) -/
+theorem C12_modes_follow_the_calls (buf : Bytes) (limit : Nat) (s0 : State)
+    (hnew : Writer.new buf limit = .ok s0) (mode : CMode) (ops : List Op)
+    (hr : Respects { w := { s0 with mode := mode } } ops) :
+    mrun { w := { s0 with mode := mode } } {} ops =
+        modesRun mode {} ops (run { w := { s0 with mode := mode } } ops).2 ∧
+      (run { w := { s0 with mode := mode } } ops).1.w.mode = ops.foldl modeAfter mode := by
+  have hI0 : I { s0 with mode := mode } := (safe_setMode mode s0 (new_i buf limit s0 hnew)).2
+  exact ⟨mrun_eq_modesRun _ ops {} hI0 hr, run_mode _ ops hI0 hr⟩
+
+/-- the same without a premise on the size of the message: when the limit given to `Writer::new`
+    and every limit set later is at most 65535 (the largest DNS message), the finished message has
+    at most 65535 octets (`session_size_le`), so the refinement holds outright -/
+theorem C12_refinement_all_modes_dns_limits (macFn : Tsig → List UInt8 → List UInt8) (hmac : MacLenOK macFn)
+    (buf : Bytes) (limit : Nat) (s0 : State) (hnew : Writer.new buf limit = .ok s0) (hlim : limit ≤ 65535)
+    (mode : CMode) (ops : List Op) (ht : ∀ op ∈ ops, op.Typed)
+    (hr : Respects { w := { s0 with mode := mode } } ops) (hv : ∀ v, Op.setLimit v ∈ ops → v ≤ 65535)
+    (ex : Prop) (hex : ex → mode ≠ .standard ∧ ∀ m, Op.setMode m ∈ ops → m ≠ .standard) :
+    ∃ m mac, finish (run { w := { s0 with mode := mode } } ops).1.w macFn = .ok (m, mac) ∧ m.size ≤ 65535 ∧
+      ∃ d : Spec.Message.Decoded, Spec.Message.specDecodeMsg m = some d ∧
+        d.msg.header = specHeader (run { w := { s0 with mode := mode } } ops).1.w.octets ∧
+        All2 (QuestionIs ex) (bodyRun {} ops (run { w := { s0 with mode := mode } } ops).2).qs d.msg.questions ∧
+        All2 (RecordIs ex) (bodyRun {} ops (run { w := { s0 with mode := mode } } ops).2).an d.msg.answers ∧
+        All2 (RecordIs ex) (bodyRun {} ops (run { w := { s0 with mode := mode } } ops).2).ns d.msg.authorities ∧
+        All2 (RecordIs ex) ((bodyRun {} ops (run { w := { s0 with mode := mode } } ops).2).ar ++
+          optRecs' (run { w := { s0 with mode := mode } } ops).1.w.edns ++
+          tsigRecs (run { w := { s0 with mode := mode } } ops).1.w.tsig mac) d.msg.additionals := by
+  obtain ⟨m, mac, hf, hrest⟩ := refines_all_modes macFn hmac buf limit s0 hnew mode ops ht hr ex hex
+  have hsz := session_size_le macFn buf limit s0 hnew hlim mode ops hr hv m mac hf
+  exact ⟨m, mac, hf, hsz, hrest hsz⟩
+
+/-! non-vacuity: a `CasePreserving` session that respects the contract, whose calls all succeed, and
+    that emits two pointers (owner = QNAME; the CNAME target shares a suffix with it) — all
+    hypotheses of `C12_refinement_without_standard_mode` hold for it, and the message has a question
+    and an answer -/
+
+def nvOps : List Op := [.addQuestion ⟨[[119, 119, 119], [97]]⟩ 1 1,
+  .addRr .answer (.direct .none) ⟨[[119, 119, 119], [97]]⟩ 5 1 60 [1, 98, 1, 97, 0] none]
+
+def nvS : State := match Writer.new (Array.replicate 64 0) 64 with | .ok s => s | _ => default
+
+example : Writer.new (Array.replicate 64 0) 64 = .ok nvS ∧
+    (∀ op ∈ nvOps, op.Typed) ∧ Respects { w := { nvS with mode := .casePreserving } } nvOps ∧
+    CMode.casePreserving ≠ .standard ∧ (∀ m, Op.setMode m ∈ nvOps → m ≠ .standard) ∧
+    (run { w := { nvS with mode := .casePreserving } } nvOps).2 = [.ok (), .ok ()] ∧
+    ((run { w := { nvS with mode := .casePreserving } } nvOps).1.w.gPtrs.map fun e => (e.pos, e.target)) =
+      [(37, 16), (23, 12)] := by
+  have hwf : WName.WF ⟨[[119, 119, 119], [97]]⟩ := by decide
+  refine ⟨rfl, ?_, ⟨hwf, ⟨hwf, trivial⟩, trivial⟩, by decide, ?_, by decide +kernel, by decide +kernel⟩
+  · intro op hop
+    simp only [nvOps, List.mem_cons, List.mem_nil_iff, or_false] at hop
+    rcases hop with rfl | rfl
+    · exact ⟨hwf, by decide, by decide⟩
+    · exact ⟨hwf, by decide, by decide, by decide⟩
+  · intro m hm
+    simp [nvOps] at hm
 
 end QV.C12
